@@ -3,6 +3,8 @@ import DryocVerif.Proofs.Sign
 import DryocVerif.Proofs.SignGroup
 import DryocVerif.Proofs.SignVectors
 import DryocVerif.Proofs.SignExtra
+import DryocVerif.Proofs.SignUnique
+import DryocVerif.Proofs.SignCanon
 /-!
 # C06 — Ed25519 signing glue (`Model/Sign.lean`)
 
@@ -36,7 +38,21 @@ What is proved only UNDER EXPLICIT, UNPROVED HYPOTHESES:
   `signPh_seedKeypair_eq_spec`) is a statement of the form "IF the curve arithmetic is a
   group with these properties THEN …" and nothing more;
 * `verify_model_vs_spec` (dalek-style vs libsodium-style decision) uses per-input
-  hypotheses listed in its docstring.
+  hypotheses listed in its docstring;
+* `S_unique` / `S_change_rejected` (§8: an accepted signature's `S` half is the only one accepted with
+  that `R`) take `EdwardsInterpOrd` = `EdwardsInterp` + "`B` has order exactly `L`" + "decoded points
+  are valid" — again a hypothesis structure without an instance.
+
+Unconditional, §8: the libsodium-style verifier rejects every NON-CANONICAL encoding of `R` and of the
+public key (`noncanonical_R_rejected_spec`, `noncanonical_pk_rejected_spec`).  The MODEL (dalek's lenient
+decoding) does not have such a rule: outside the small-order table this family of inputs is where the
+two verifiers may differ; it is covered by enumeration in the differential run, not by a theorem.
+
+TOTALISATION NOTE: `verifyDetached` / `verifyCore` take byte LISTS and start with the guard
+`sig.length ≠ 64 ∨ pk.length ≠ 32 → false`.  The Rust functions take `&[u8; 64]`, `&[u8; 32]`: a wrong
+length is not expressible there.  `wrong_length_rejected` and the length disjuncts of
+`both_reject_malformed` are therefore true BY the totalising guard, not a property of the code; what the
+object API does with a `Vec<u8>` of another length (panic / prefix view) is `Model.ObjectView` and C04 §"observation".
 -/
 namespace DryocVerif.Properties.C06
 open DryocVerif DryocVerif.Spec.Ed25519 DryocVerif.Model.Sign
@@ -213,6 +229,11 @@ theorem S_plus_kL_rejected (H : Bytes → Bytes) (Rb msg pk : Bytes) (ph : Bool)
     _ ≤ k * L := Nat.mul_le_mul_right L hk
     _ ≤ S + k * L := Nat.le_add_left _ _
 
+/-- TRUE BY THE TOTALISING GUARD of the model (see the header): the Rust verifier takes `&[u8; 64]` and
+`&[u8; 32]`, so "wrong length" cannot be passed to it; this theorem only says that the first line of
+`Model.Sign.verifyDetached` — added to make the function total on lists — answers `false`.  For
+variable-length containers the object API PANICS on a shorter and TRUNCATES a longer argument
+(`C04.objVerifyMessage_cases`). -/
 theorem wrong_length_rejected (H : Bytes → Bytes) (sig msg pk : Bytes) (ph : Bool)
     (h : sig.length ≠ 64 ∨ pk.length ≠ 32) : verifyDetached H sig msg pk ph = false := by
   rw [← Bool.not_eq_true, verifyDetached_true_iff]
@@ -469,7 +490,9 @@ theorem verify_model_vs_spec (sig msg pk : Bytes) (ph : Bool) (R : Point)
   verify_model_eq_spec' sig msg pk ph R hR hRcanon hdec hcanon hsoR hsoA
 
 /-- both verifiers reject the same malformed inputs outright, with no hypothesis:
-wrong lengths and non-canonical S -/
+wrong lengths and non-canonical S.  The two LENGTH disjuncts are true by the totalising guards that
+`verifyDetached` and `verifyCore` both start with (neither the Rust nor the C function can be handed an
+array of another length); the content is the third disjunct, `L ≤ S`. -/
 theorem both_reject_malformed (sig msg pk : Bytes) (ph : Bool)
     (h : sig.length ≠ 64 ∨ pk.length ≠ 32 ∨ L ≤ le (sig.drop 32)) :
     verifyDetached Spec.Sha512.sha512 sig msg pk ph = false ∧
@@ -563,4 +586,80 @@ example : ∃ R, decodePointLax ((1 :: zeros 63 : Bytes).take 32) = some R ∧
   ⟨(decodePointLax ((1 :: zeros 63 : Bytes).take 32)).getD identity,
     some_getD (by decide +kernel) _, by decide +kernel⟩
 
+/-! ## 8. uniqueness of `S`; non-canonical point encodings -/
+
+/-- **An accepted signature's `S` half is unique.**  If two 64-byte strings with the same first 32 bytes (`R`) are
+both accepted by `crypto_sign_verify_detached` for the same public key, message and mode, they are equal.
+This is the provable half of "any change to a bit of the signature is rejected": it covers every change confined
+to `sig[32..64]` (for a change in `sig[0..32]` the challenge `k = H(R‖A‖M)` changes, and rejection is a property
+of SHA-512 that cannot be a theorem).
+CONDITIONAL on `I : EdwardsInterpOrd` = `EdwardsInterp` (curve arithmetic is a group through `φ` on `valid`
+points) extended with `order_exact : ∀ n, n • φ B = 0 → L ∣ n` (the base point has order exactly `L`) and
+`decode_valid` (the lenient decoder returns valid points).  Same bluntness as for `verify_sign_model`: these are
+named, unproved curve facts; no instance of the structure exists in this development. -/
+theorem S_unique {G : Type _} [AddCommGroup G] {valid : Point → Prop} {φ : Point → G}
+    (I : Proofs.SignUnique.EdwardsInterpOrd G valid φ) (H : Bytes → Bytes) (sig₁ sig₂ msg pk : Bytes)
+    (ph : Bool) (hR : sig₁.take 32 = sig₂.take 32)
+    (h₁ : verifyDetached H sig₁ msg pk ph = true) (h₂ : verifyDetached H sig₂ msg pk ph = true) :
+    sig₁ = sig₂ :=
+  Proofs.SignUnique.S_unique I H sig₁ sig₂ msg pk ph hR h₁ h₂
+
+/-- rejection form: next to an accepted signature, every other string with the same `R` is rejected (under the
+same hypothesis structure) -/
+theorem S_change_rejected {G : Type _} [AddCommGroup G] {valid : Point → Prop} {φ : Point → G}
+    (I : Proofs.SignUnique.EdwardsInterpOrd G valid φ) (H : Bytes → Bytes) (sig sig' msg pk : Bytes)
+    (ph : Bool) (hacc : verifyDetached H sig msg pk ph = true) (hR : sig'.take 32 = sig.take 32)
+    (hne : sig' ≠ sig) : verifyDetached H sig' msg pk ph = false :=
+  Proofs.SignUnique.S_change_rejected I H sig sig' msg pk ph hacc hR hne
+
+/-- non-vacuity witness for the hypotheses of `S_unique` / `S_change_rejected` OTHER than `I` (RFC 8032 TEST 1 is
+accepted), and a kernel-checked instance of the CONCLUSION of `S_change_rejected` that does not go through `I`:
+the same signature with the lowest bit of `S` flipped (same `R`, different string) is rejected -/
+example : verifyDetached Spec.Sha512.sha512 tvSig [] tvPk false = true ∧
+    (tvSig.modify 32 (· ^^^ 1)).take 32 = tvSig.take 32 ∧ tvSig.modify 32 (· ^^^ 1) ≠ tvSig ∧
+    verifyDetached Spec.Sha512.sha512 (tvSig.modify 32 (· ^^^ 1)) [] tvPk false = false :=
+  ⟨tv_verify, by decide, by decide, by decide +kernel⟩
+
+/-- **libsodium side: a non-canonical public key is rejected** (`ge25519_is_canonical(pk) == 0`), for every
+signature, message and mode.  The MODEL side has no such rule: dalek's lenient decompression reduces `y` mod `p`,
+so `Model.Sign.verifyDetached` MAY accept a signature under such a key.  Of the 38 non-canonical encodings
+(`y ∈ [p, 2²⁵⁵)`, two sign bits) 4 are in the small-order table (rejected by both, `blacklist_A_rejected`); for
+the others the two verifiers can differ, and that family is ENUMERATED in the differential run only — there is no
+theorem that the model rejects (or accepts) them. -/
+theorem noncanonical_pk_rejected_spec (dom pk m sig : Bytes) (h : isCanonicalPoint pk = false) :
+    verifyCore dom pk m sig = false :=
+  Proofs.SignCanon.noncanonical_pk_rejected_spec dom pk m sig h
+
+/-- every output of the encoder is canonical (`y < p`) … -/
+theorem encodePoint_canonical (P : Point) : isCanonicalPoint (encodePoint P) = true :=
+  Proofs.SignCanon.encodePoint_canonical P
+
+/-- … hence, **libsodium side: a signature with a non-canonical `R` is rejected** — not by an explicit test but
+because the recomputed point is re-encoded (canonically) and compared bytewise with `sig[0..32]`.  The MODEL side
+compares projectively after a lenient decode and may accept (same remark, same enumerated-only family as for the
+public key). -/
+theorem noncanonical_R_rejected_spec (dom pk m sig : Bytes) (h : isCanonicalPoint (sig.take 32) = false) :
+    verifyCore dom pk m sig = false :=
+  Proofs.SignCanon.noncanonical_R_rejected_spec dom pk m sig h
+
+/-- non-vacuity witness, and the reason the model side is left open: the encoding `y = p + 3` (`f0 ff … ff 7f`) is
+non-canonical, NOT in the small-order table, is refused by the strict RFC 8032 decoder, but IS accepted by the
+lenient decoder, to a point that is not of small order — so none of `verifyDetached`'s own rejection rules fires
+on it as a public key or as `R` -/
+example : let s : Bytes := 0xf0 :: (List.replicate 30 0xff ++ [0x7f])
+    isCanonicalPoint s = false ∧ hasSmallOrder s = false ∧ decodePoint s = none ∧
+    ∃ P, decodePointLax s = some P ∧ isSmallOrder P = false :=
+  ⟨by decide +kernel, by decide +kernel, by decide +kernel,
+    (decodePointLax (0xf0 :: (List.replicate 30 0xff ++ [0x7f]))).getD identity,
+    some_getD (by decide +kernel) _, by decide +kernel⟩
+
 end DryocVerif.Properties.C06
+
+section AxiomCheck
+open DryocVerif.Properties.C06
+#print axioms S_unique
+#print axioms S_change_rejected
+#print axioms noncanonical_pk_rejected_spec
+#print axioms noncanonical_R_rejected_spec
+#print axioms encodePoint_canonical
+end AxiomCheck
